@@ -319,4 +319,11 @@ def p7(ctx):
     c02.p7(ctx)
 
 
-RULES = [w1, w2, w3, w4, u0, pc, p1, p7]
+
+
+@rule("P2", doc="touch-after-change (shared with C02): a class-level change re-queues the class's usages, otherwise parents keep stale shapes in the hashcons")
+def p2(ctx):
+    c02.p2(ctx)
+
+
+RULES = [w1, w2, w3, w4, u0, pc, p1, p7, p2]
